@@ -68,6 +68,8 @@ type realm struct {
 	// Session meta-procedure registration ID -> handler map.
 	metaProcMap map[wamp.ID]func(*wamp.Invocation) wamp.Message
 	metaDone    chan struct{}
+	// Closed when the handler for messages from the meta session has exited.
+	metaSessDone chan struct{}
 
 	closed    bool
 	closeLock sync.Mutex
@@ -104,22 +106,23 @@ func newRealm(config *RealmConfig, broker *broker, dealer *dealer, logger stdlog
 	}
 
 	r := &realm{
-		broker:      broker,
-		dealer:      dealer,
-		authorizer:  config.Authorizer,
-		clients:     map[wamp.ID]*wamp.Session{},
-		testaments:  map[wamp.ID]testamentBucket{},
-		actionChan:  make(chan func()),
-		closing:     make(chan struct{}),
-		stopped:     make(chan struct{}),
-		metaIDGen:   new(wamp.IDGen),
-		metaDone:    make(chan struct{}),
-		metaProcMap: make(map[wamp.ID]func(*wamp.Invocation) wamp.Message, 9),
-		log:         logger,
-		debug:       debug,
-		localAuth:   config.RequireLocalAuth,
-		localAuthz:  config.RequireLocalAuthz,
-		metaStrict:  config.MetaStrict,
+		broker:       broker,
+		dealer:       dealer,
+		authorizer:   config.Authorizer,
+		clients:      map[wamp.ID]*wamp.Session{},
+		testaments:   map[wamp.ID]testamentBucket{},
+		actionChan:   make(chan func()),
+		closing:      make(chan struct{}),
+		stopped:      make(chan struct{}),
+		metaIDGen:    new(wamp.IDGen),
+		metaDone:     make(chan struct{}),
+		metaSessDone: make(chan struct{}),
+		metaProcMap:  make(map[wamp.ID]func(*wamp.Invocation) wamp.Message, 9),
+		log:          logger,
+		debug:        debug,
+		localAuth:    config.RequireLocalAuth,
+		localAuthz:   config.RequireLocalAuthz,
+		metaStrict:   config.MetaStrict,
 
 		enableMetaKill:   config.EnableMetaKill,
 		enableMetaModify: config.EnableMetaModify,
@@ -224,6 +227,9 @@ func (r *realm) close() {
 	// finally safe to exit and close the broker.
 	r.metaSess.EndRecv(shutdownGoodbye)
 	<-r.metaDone
+	// Also wait for the handler of the meta session's messages, which may
+	// still be routing a meta event or the result of a meta procedure.
+	<-r.metaSessDone
 
 	// handleInboundMessages() and metaProcedureHandler() are the only things
 	// than can submit request to the broker and dealer, so now that these are
@@ -305,6 +311,7 @@ func (r *realm) createMetaSession() {
 
 	// Run the handler for messages from the meta session.
 	go func() {
+		defer close(r.metaSessDone)
 		_, _, err := r.handleInboundMessages(r.metaSess)
 		if err != nil {
 			r.log.Println("meta session handler should never return error, got:", err)
